@@ -624,21 +624,22 @@ def c05():
         forests = export_shapes(5)
     ck.cov["universe"] = "all %d schemas with <= 3 nodes + %d seeded from the 7932 schemas with <= 5 nodes" % (len(small), 150) if q else \
         "all %d schemas with <= 5 nodes (depth <= 3, <= 3 children per group)" % len(forests)
+    from wfam import build_and_run
     progs = universe_programs(forests, toff_fn=lambda i, f: stable_toff(f))
-    build_programs(progs)
     ck.cov["programs"] = len(progs)
-    ok = usable(progs)
-    load_schemas(ok)
+    for p in progs:
+        p.schema = p.forest          # the driver re-derives it by reflection; the judge cross-checks (HARNESS/ColumnsMatchSchema)
     cap = int(os.environ.get("VERIF_C05_CAP", "40" if q else "300"))
-    recs = export_records([(p.key, p.schema) for p in ok], 2, cap, ck.seed)
-    for p in ok:
+    recs = export_records([(p.key, p.schema) for p in progs], 2, cap, ck.seed)
+    for p in progs:
         rr = recs[p.key]["recs"]
         k = len(rr)
         p.cases = [{"page": 1000, "codec": CODECS[(k + ck.seed) % 3], "poff": (ck.seed + k) % 16, "ops": ops_of("a" * k + "w", rr), "reads": [{"mode": "plain"}]},
                    {"page": 2, "codec": CODECS[(k + 1 + ck.seed) % 3], "poff": (ck.seed + 2 * k) % 16,
                     "ops": ops_of("a" * (k - k // 2) + "w" + "a" * (k // 2) + ("w" if k // 2 else ""), rr), "reads": [{"mode": "plain"}]}]
         ck.add("values_tried", 2 * k)
-    run_programs(ok, "c05", timeout=1800)
+    build_and_run(progs, "c05", timeout=1800, drop=len(progs) > 400)
+    ok = progs
     # judge everything, then reduce to one verdict per program
     events = [e for p in ok for e in p.events]
     died = [e for e in events if e.get("ev") == "DriverDied"]
@@ -659,7 +660,7 @@ def c05():
         if p.build["status"] != "ok":
             findings.append((p, p.build["status"], {"detail": p.build["detail"]}))
     for pi, vs in per_prog.items():
-        p = ok[pi]
+        p = progs[pi]
         bycase = {}
         for v in vs:
             bycase.setdefault(v["case"], set()).add(v["conjunct"])
@@ -716,7 +717,8 @@ def c05():
 
 def run_driver_fresh(p, case):
     from vlib import run_driver
-    return [e for e in run_driver(p.build, {"cases": [case]}, "confirm") if e.get("ev") != "DriverDied"]
+    from wfam import ensure_built
+    return [e for e in run_driver(ensure_built(p), {"cases": [case]}, "confirm") if e.get("ev") != "DriverDied"]
 
 
 CHECKS["C05"] = c05
@@ -1492,11 +1494,10 @@ def c14():
         d = Program("%s || %s" % (p.key, what), render_deco(f), f)
         d.basekey, d.base, d.what = p.key, p, what
         dprogs.append(d)
-    build_programs(dprogs)
-    built = usable(dprogs)
-    for i, d in enumerate(built):
+    from wfam import build_and_run
+    for i, d in enumerate(dprogs):
         d.cases = cases_for(d, "d%d" % i)
-    run_programs(built, "c14d")
+    build_and_run(dprogs, "c14d", drop=len(dprogs) > 400)
     ck.cov["programs"] = len(dprogs)
     # assemble one trace per decorated program: its own events plus a Pair event per case
     pseudo = []
